@@ -540,12 +540,51 @@ def decoy_bnet(rng, bnet: str) -> str:
     return out
 
 
+TRICKY = ["S", "S_R", "S_R_up_1", "x_up_y", "x_down", "x_down_y", "tr_a", "tr_a_up_1", "a_b0", "b1_c", "p_up", "p_up_stream", "EGF", "EGF_R",
+          "g", "g_act", "g_act_1", "n_up", "vdown_1", "b0_x", "b1_x", "k_up_k", "A_", "A__1"]
+
+
+def mangle_names(rng, bnet: str) -> str:
+    """the same network with variable names that are prefixes of each other or contain the fragments the
+    Petri-net encoding uses in its own identifiers (`tr_`, `_up_`, `_down_`, `b0_`, `b1_`)"""
+    rows = [l.split(",", 1) for l in bnet.split("\n") if "," in l]
+    names = sorted({t for _, e in rows for t in re.findall(r"[A-Za-z_][A-Za-z0-9_]*", e) if t not in ("true", "false")} | {a.strip() for a, _ in rows})
+    pool = TRICKY[:]
+    rng.shuffle(pool)
+    if len(names) > len(pool):
+        return bnet
+    m = dict(zip(names, pool))
+    sub = lambda txt: re.sub(r"[A-Za-z_][A-Za-z0-9_]*", lambda t: m.get(t.group(0), t.group(0)), txt)
+    return "\n".join(f"{m[a.strip()]}, {sub(e.strip())}" for a, e in rows)
+
+
+def free_inputs(rng, bnet: str) -> str:
+    """identity inputs `x, x` turned into free inputs (no update function at all), as in aeon / sbml files"""
+    rows = [l.split(",", 1) for l in bnet.split("\n") if "," in l]
+    out = []
+    for a, e in rows:
+        v = a.strip()
+        used = any(re.search(r"\b" + re.escape(v) + r"\b", e2) for a2, e2 in rows if a2.strip() != v)
+        if e.strip() in (v, f"({v})") and used and rng.random() < 0.8:
+            continue
+        out.append(f"{v}, {e.strip()}")
+    return "\n".join(out) if out else bnet
+
+
 def with_decoy(mod, case, seed_str):
-    """attach a decoy case (run first, result ignored) to a fraction of the generated cases"""
+    """variants of a generated case: tricky variable names, free inputs, and a decoy case (run first,
+    result ignored) for a fraction of the cases"""
     p = getattr(mod, "DECOY", 0.25)
     if not isinstance(case, dict) or not isinstance(case.get("bnet"), str) or "_decoy" in case:
         return case
     rng = random.Random(seed_str)
+    try:
+        if rng.random() < getattr(mod, "NAMES", 0.12):
+            case = dict(case, bnet=mangle_names(rng, case["bnet"]))
+        if rng.random() < getattr(mod, "FREE_INPUTS", 0.06):
+            case = dict(case, bnet=free_inputs(rng, case["bnet"]))
+    except Exception:
+        pass
     if rng.random() >= p:
         return case
     d = dict(case)
